@@ -611,6 +611,85 @@ def coq_accept(rows) -> str:
             'Eval vm_compute in (List.length (filter bad rows)).\n')
 
 
+class Listeners:
+    """User-side event listeners of different temper, held strongly (the bus keeps weak references)."""
+
+    def __init__(self, w):
+        self.w = w
+        self.seen = []
+        self.late_seen = []
+        self.reentered = 0
+
+    def record(self, e):
+        self.seen.append(type(e.message).__qualname__)
+
+    async def suspending(self, e):
+        import asyncio
+        await asyncio.sleep(0)
+        await asyncio.sleep(0)
+
+    async def raising_async(self, e):
+        raise RuntimeError('listener failed')
+
+    def raising_sync(self, e):
+        raise KeyError('listener failed')
+
+    async def reentrant(self, e):
+        # a listener that itself sends on the connection it is called for and emits on the bus
+        from aioslsk.protocol.messages import Ping
+        from aioslsk.events import PrivilegedUsersEvent
+        self.reentered += 1
+        e.connection.queue_message(Ping.Request())
+        await self.w.client.events.emit(PrivilegedUsersEvent(users=[]))
+
+    def late(self, e):
+        self.late_seen.append(type(e.message).__qualname__)
+
+
+def listener_scenarios(run: Run, w, lay: dict):
+    """The reader must survive, and keep the order, whatever the registered listeners do: suspend, raise
+    (sync / async), re-enter the connection and the bus, or get registered after the first delivery."""
+    from aioslsk.events import MessageReceivedEvent
+    ls = Listeners(w)
+    bus = w.client.events
+    bus.register(MessageReceivedEvent, ls.suspending, priority=1)
+    bus.register(MessageReceivedEvent, ls.raising_async, priority=2)
+    bus.register(MessageReceivedEvent, ls.raising_sync, priority=3)
+    bus.register(MessageReceivedEvent, ls.reentrant, priority=4)
+    bus.register(MessageReceivedEvent, ls.record, priority=5)
+    msgs = [m for m in table_msgs(lay, 'server') if m['name'] in ('RoomChatMessage.Response', 'PrivilegedUsers.Response', 'GetUserStatus.Response',
+                                                                    'RoomTickerAdded.Response', 'ParentMinSpeed.Response', 'AdminMessage.Response')]
+    sent = []
+    stream = b''
+    for i, m in enumerate(msgs):
+        data = L.make_obj(lay, m, L.gen_message(run.rng, lay, m, 'full')).serialize()
+        sent.append(m['name'])
+        stream += data + struct.pack('<I', 3) + b'\xff\xfe\xfd'      # an undecodable frame between the valid ones
+    half = len(stream) // 2
+    w.server.feed(stream[:half])
+    w.settle(80)
+    bus.register(MessageReceivedEvent, ls.late, priority=6)
+    n_before_late = len(ls.seen)
+    w.server.feed(stream[half:])
+    w.settle(200)
+    alive, state = server_alive(w)
+    wit = {'scenario': 'listeners', 'messages': sent}
+    run.case(wit, kind='listeners')
+    if not alive and state == 'CONNECTED':
+        run.add_finding(Finding('reader-task-ended-by-listener', 'with suspending / raising / re-entrant listeners registered the server reader task has ended while the connection is CONNECTED', wit))
+    elif state != 'CONNECTED':
+        run.add_finding(Finding('connection-closed-by-listener', f'listeners that raise / suspend made the server connection go {state}', wit))
+    if ls.seen != sent:
+        run.add_finding(Finding('listeners:messages-not-delivered-once-in-order', 'a recording listener behind suspending / raising / re-entrant listeners did not see every message once, in order',
+                                wit, observed=ls.seen, expected=sent))
+    if ls.late_seen != sent[n_before_late:]:
+        run.add_finding(Finding('listeners:late-listener', 'a listener registered between two deliveries does not see exactly the later messages',
+                                wit, observed=ls.late_seen, expected=sent[n_before_late:]))
+    for f in (ls.suspending, ls.raising_async, ls.raising_sync, ls.reentrant, ls.record, ls.late):
+        bus.unregister(MessageReceivedEvent, f)
+    return ls
+
+
 def server_alive(w) -> tuple:
     c = w.client.network.server_connection
     t = c._reader_task
@@ -645,6 +724,10 @@ def handler_hypothesis(run: Run, lay: dict, tier: str):
                 check_handler_witness(run, w, lay, wit)
                 fresh()
         accept_rows = accept_scenarios(run, w, lay)
+        keep_listeners = listener_scenarios(run, w, lay)   # noqa: F841 (strong reference)
+        alive, state = server_alive(w)
+        if not alive or state != 'CONNECTED':
+            fresh()
         # --- server responses
         reps = 2
         for m in table_msgs(lay, 'server'):
@@ -746,6 +829,13 @@ def run(run: Run):
     proved = run.prove(['tr_obf', 'tr_messages', 'tr_c02conn'], extra_targets=['theories/C01/Eval.vo'])
     model_ok = (common.COQ / 'theories' / 'C02' / 'Props.vo').exists() and (common.COQ / 'theories' / 'C01' / 'Eval.vo').exists() and \
         not any(b[0].startswith('translator:') for b in run.broken)
+    try:
+        from translate import tr_c02conn
+        tr_c02conn.check_helper_pins(common.SRC)
+    except Exception as e:
+        run.add_broken('helper-pins (events / tasks / exceptions / connection state / Network glue / F07 site)', f'{type(e).__name__}: {e}')
+    # a broken tie (translator, fingerprint, proof, helper pin) triggers the longer directed search
+    eff_tier = 'thorough' if run.broken else run.tier
     pin = L.load_pinned()
     play = pin['layout']
     cur = play
@@ -756,14 +846,14 @@ def run(run: Run):
         model_ok = False
 
     # --- full client: F07 witness, accept path, handler hypothesis
-    accept_rows = handler_hypothesis(run, play, run.tier)
+    accept_rows = handler_hypothesis(run, play, eff_tier)
 
     # --- reader loop on fake transports
-    n = 28 if run.tier == 'quick' else 200
+    n = 28 if eff_tier == 'quick' else 200
     scs = []
     todo = [(sc['kind'], sc) for sc in cross_family_scenarios(run.rng, play)]     # first: nothing else has touched process-wide state yet
     todo += [(sc['kind'], sc) for sc in directed_scenarios(run.rng, play)]
-    todo += [(sc['kind'], sc) for sc in large_scenarios(run.rng, play, 3 if run.tier == 'quick' else 12)]
+    todo += [(sc['kind'], sc) for sc in large_scenarios(run.rng, play, 3 if eff_tier == 'quick' else 12)]
     for kind in KINDS:
         todo += [(kind, None) for _ in range(n)]
     if True:
@@ -828,6 +918,26 @@ def replay(rep: dict) -> int:
             print('messages:', wit['messages'])
             print('server reader alive:', alive, 'connection state:', state)
             return 1 if bad else 0
+        finally:
+            try:
+                w.stop()
+            except Exception:
+                w.close()
+    if wit.get('scenario') == 'listeners':
+        from vlib.world import World
+        r = common.Run(prop='C02', tier='quick', seed=int(rep.get('seed', 0) or 0))
+        w = World()
+        try:
+            w.start()
+            w.login()
+            ls = listener_scenarios(r, w, lay)
+            print('messages sent (an undecodable frame after each):', wit['messages'])
+            print('seen by the recording listener:', ls.seen)
+            print('seen by the late listener     :', ls.late_seen)
+            print('server reader alive / state   :', server_alive(w))
+            for f in r.findings:
+                print('FAILS:', f.key, '-', f.what)
+            return 1 if r.findings else 0
         finally:
             try:
                 w.stop()
